@@ -1,11 +1,23 @@
 // Harness for memory_arena<Source, Cached>:  arena <cached|uncached> <grow|fixed|static|virtual> <block_size> <nblocks>
-// ops: ab | db | shrink | q | owns off | mv | ma | fail k | destroy
+// ops: ab | db | shrink | q | owns off | mv | mfa | mfb | fail k | destroy
 #include "hcommon.hpp"
 #include "memory_arena.hpp"
 #include "static_allocator.hpp"
 #include "virtual_memory.hpp"
+#include <sys/mman.h>
+#include <sys/syscall.h>
+#include <unistd.h>
+#include <cerrno>
 using namespace foonathan::memory;
 using namespace verif;
+
+// fault injection for the virtual memory source: the k-th commit (mprotect to read/write) fails with ENOMEM
+static long g_commits = 0, g_commit_fail_at = -1;
+extern "C" int mprotect(void* addr, size_t len, int prot) noexcept
+{
+    if (prot != PROT_NONE && ++g_commits == g_commit_fail_at) { errno = ENOMEM; return -1; }
+    return int(syscall(SYS_mprotect, addr, len, prot));
+}
 
 static std::uintptr_t g_out_base = 0;
 static long long xoff(const void* p)
@@ -37,8 +49,8 @@ struct logged_source : Base
     }
 };
 
-template <class Arena, class Make>
-int run_script(Make make, const std::string& header)
+template <class Arena, class Make, class Make2>
+int run_script(Make make, Make2 make2, const std::string& header)
 {
     auto& U = up();
     Arena* ar = nullptr;
@@ -74,7 +86,7 @@ int run_script(Make make, const std::string& header)
         else if (op == "shrink") { ar->shrink_to_fit(); res = "done"; }
         else if (op == "q") res = "q";
         else if (op == "owns") { long long off; is >> off; res = ar->owns(U.base + off) ? "true" : "false"; }
-        else if (op == "fail") { long k; is >> k; U.fail_at = U.calls + k; res = "set"; }
+        else if (op == "fail") { long k; is >> k; U.fail_at = U.calls + k; g_commit_fail_at = g_commits + k; res = "set"; }
         else if (op == "mv") { Arena* n = new (U.place(sizeof(Arena))) Arena(std::move(*ar)); graveyard.push_back(ar); ar = n; res = "moved"; }
         else if (op == "mfa")
         {   // move-assign a fresh arena (holding one block) into a moved-from one, then destroy it
@@ -84,6 +96,16 @@ int run_script(Make make, const std::string& header)
             Arena* g = graveyard.back(); graveyard.pop_back();
             Arena* f = make(U.place(sizeof(Arena))); f->allocate_block();
             *g = std::move(*f); g->~Arena(); graveyard.push_back(f); res = "done";
+        }
+        else if (op == "mfb")
+        {   // move-assign from a busy arena over a second, distinguishable source (upstream tag 7): the target's blocks
+            // go back to the target's old source, the other arena's used and cached blocks travel with their source
+            bool own_source = header.find(" grow ") != std::string::npos || header.find(" fixed ") != std::string::npos;
+            if (!own_source) { std::printf("%s = skipped\n", line.c_str()); continue; }
+            U.fail_at = -1;
+            Arena* f = make2(U.place(sizeof(Arena))); f->allocate_block();
+            if (header.find(" grow ") != std::string::npos) { f->allocate_block(); f->deallocate_block(); }
+            *ar = std::move(*f); graveyard.push_back(f); res = "done";
         }
         else if (op == "destroy") { ar->~Arena(); for (auto g : graveyard) g->~Arena(); std::printf("destroy = ok |%s |\n", U.take().c_str()); break; }
         else { std::printf("? %s\n", line.c_str()); continue; }
@@ -98,17 +120,18 @@ int run_script(Make make, const std::string& header)
 template <bool Cached>
 int dispatch(const std::string& src, std::size_t bs, std::size_t nb, const std::string& header)
 {
-    if (src == "grow") { using A = memory_arena<growing_block_allocator<up_alloc>, Cached>; return run_script<A>([=](void* s) { return new (s) A(bs); }, header); }
-    if (src == "fixed") { using A = memory_arena<fixed_block_allocator<up_alloc>, Cached>; return run_script<A>([=](void* s) { return new (s) A(bs); }, header); }
+    up_alloc tagged; tagged.tag = 7;
+    if (src == "grow") { using A = memory_arena<growing_block_allocator<up_alloc>, Cached>; return run_script<A>([=](void* s) { return new (s) A(bs); }, [=](void* s) { return new (s) A(bs, tagged); }, header); }
+    if (src == "fixed") { using A = memory_arena<fixed_block_allocator<up_alloc>, Cached>; return run_script<A>([=](void* s) { return new (s) A(bs); }, [=](void* s) { return new (s) A(bs, tagged); }, header); }
     if (src == "static")
     {
         using A = memory_arena<logged_source<static_block_allocator>, Cached>;
         static static_allocator_storage<16384> storage;   // nb * bs must divide it (generator uses bs in {1024, 2048, 4096})
         (void)nb;
-        return run_script<A>([=](void* s) { return new (s) A(bs, storage); }, header);
+        return run_script<A>([=](void* s) { return new (s) A(bs, storage); }, [=](void* s) { return new (s) A(bs, storage); }, header);
     }
     using A = memory_arena<logged_source<virtual_block_allocator>, Cached>;
-    return run_script<A>([=](void* s) { return new (s) A(bs, nb); }, header);
+    return run_script<A>([=](void* s) { return new (s) A(bs, nb); }, [=](void* s) { return new (s) A(bs, nb); }, header);
 }
 
 int main()
